@@ -79,7 +79,12 @@ func RegisterInternalMessage[T any](messageName string, reader InternalMessageRe
 }
 
 func QueryMessageDesc(message any) *MessageDesc {
-	tof := reflect.TypeOf(message).Elem()
+	tof := reflect.TypeOf(message)
+	if tof == nil || tof.Kind() != reflect.Ptr {
+		// 已注册的消息均为结构体指针；nil 与非指针的值只可能由外部 Codec 处理
+		return outsideMessageDesc
+	}
+	tof = tof.Elem()
 	desc, ok := internalMessageTypeOfDesc[tof]
 	if ok {
 		return desc
@@ -96,6 +101,9 @@ func QueryMessageDescByName(messageName string) *MessageDesc {
 }
 
 func SerializeRemotingMessage(codec Codec, writer *Writer, desc *MessageDesc, message any) error {
+	if rv := reflect.ValueOf(message); rv.Kind() == reflect.Ptr && rv.IsNil() {
+		return fmt.Errorf("cannot write nil message: %T", message)
+	}
 	dw := NewWriterFromPool()
 	defer ReleaseWriterToPool(dw)
 	if err := desc.writer(message, dw, codec); err != nil {
